@@ -53,7 +53,7 @@ prop('C08', True,
      "Lean 4 proof (prefix-freeness by mutual induction) + proved negation with witness + differential correspondence + collision search")
 
 EXEC_NOTE = 'Modelled, not verified: a store/lock call is one atomic event at this layer (locks: C04; result publication: C05); task functions deterministic; the redis protocol runs against an in-memory stand-in; signals are raised at gate points (function entry/exit, hooks, wait-loop sleep) rather than between arbitrary byte codes; worker task lists/scanning order are abstracted (a worker may look at any task at any time); completeness is proved relative to the scan obligation (C01.exec_complete), which the real loop is shown to keep on every extracted path and every validated history, not for arbitrarily long task lists by a theorem about the text of the loop.'
-TIE = ' Tie to the code, checked on every run: (1) translator: every root-to-leaf path of the real jug.jug.execution_loop (task lists [t], [d,t(d)], [t,u]; all 8 flag settings; all consistent answers of store/locks/functions/hooks incl. SystemExit/KeyboardInterrupt) is re-extracted into Generated/WorkerPaths.lean and the kernel checks each against the worker-local transition function (theorem worker_conforms); accept = lstep /\\ environment consistency is proved (accept_local, local_env_accept). (2) trace validation: real multi-worker runs of generated jugfiles under a gated scheduler on dict/file/file+pack/redis-protocol backends are replayed event by event through the compiled model, with equal final store. (3) failing-input search: property monitors on the same real runs.'
+TIE = ' Tie to the code, checked on every run: (1) translator: every root-to-leaf path of the real jug.jug.execution_loop (task lists [t], [d,t(d)], [t,u]; all 8 flag settings; all consistent answers of store/locks/functions/hooks incl. SystemExit/KeyboardInterrupt) is re-extracted into Generated/WorkerPaths.lean and the kernel checks each against the worker-local transition function (theorem worker_conforms); accept = lstep /\\ environment consistency is proved (accept_local, local_env_accept). (2) trace validation: real multi-worker runs of generated jugfiles under a gated scheduler on dict/file/file+pack/redis-protocol backends are replayed event by event through the compiled model, with equal final store. (3) failing-input search: property monitors on the same real runs. (4) the scheduling loop as a program: Model/Loop.lean is execution_loop for task lists of any length; LoopBridge.loop_scans_all / loop_conforms prove the scan obligation and the per-task protocol for every run of it, scanRun_of_workers composes the workers, and exec_complete_of_loop_workers / keep_going_completes_of_loop_workers / continuation_completes_of_loop_workers / recovery_completes_of_loop_workers state completeness with no scan hypothesis left; the program is compared event by event with the real loop on generated task lists (0-300 tasks) on every run (a difference alone is not a verdict: the real traces are then judged by lconforms / lscanOK).'
 prop('C01', True, "Lean transition system of the distributed execution protocol (any number of workers, any interleaving). Theorems: exec_sound (every stored result = sequential denotation, for all histories incl. "
      "failures/stops/crashes/lock cleanup), loads_are_reference, load_enabled (aggressive unloading harmless), rerun_noop, exec_complete + exec_complete_reference (failure-free history of any W >= 1 workers, every worker kept the scan "
      "obligation `scanRun` and left with status 0 => every task is stored with its sequential value; joint invariant of protocol state and a scan ghost), exec_complete_partial/started_tasks_have_reference_value. The scan obligation is tied to the "
@@ -102,7 +102,9 @@ prop('C05', True, "Lean model of a write at the level of file-system primitives 
      "with every file-system primitive interposed, for pickles small and large, None, plain/empty/0-d/F-order/strided/object/datetime/compressed arrays, overwrite of a packed key; the recorded sequences are regenerated into "
      "Generated/DumpSeqs.lean and the kernel checks dump_sequences_safe, packed_overwrite_order (new file published before the stale packed copy is dropped) and redis_dump_is_one_set. Failing-input search: before EVERY primitive of the real "
      "write a fresh store object reads the live directory (loadable => a value that was written; no temp file listed as a key; an overwritten key always has its old or new value; other keys intact) and files reachable under final names "
-     "that are not fully fsynced are truncated to their durable length and read (power loss); redis: a second client reads before every command.",
+     "that are not fully fsynced are truncated to their durable length and read (power loss); redis: a second client reads before every command. Writes that FAIL (a primitive reports an error, the value cannot be pickled): "
+     "the model has failed / truncate / raised, theorems failed_write_visible_implies_complete and gave_up_publishes_nothing, the real dump is re-run with its k-th data primitive failing for every k and the kernel checks "
+     "failing_writes_safe on the recorded sequences; every operation that rewrites the pack file (remove, remove_many, cleanup) is probed like dump.",
      "Trusted: POSIX rename atomicity, fsync durability, ordered durability of directory operations (the model's power-loss semantics); harness interposition (fsgate/dumpcheck) sees exactly the file-system calls made through the names "
      "file_store.py uses plus the traced writer object; torn writes below one write call and NFS client caching are not exhibited; the bytes themselves (pickle/npy decoding of a complete file) are C06's.",
      "Lean 4 proof (invariant over primitive sequences, all cut points) + kernel-checked re-extracted write sequences + reader/kill/power-loss probes at every primitive of real writes")
